@@ -197,6 +197,7 @@ type env struct {
 
 var cur *env
 var debugDump bool
+var warmed bool
 
 var lpgCopy string
 
@@ -248,6 +249,20 @@ func getEnv(every int) (*env, error) {
 		systemcontroller.WithEnableFeatures(true),
 	)
 	cur = &env{srv: srv, sys: sys, drv: d, cases: 1}
+	// warm-up: the first request of a process is slow (Numscript parser tables, bun model caches);
+	// a task that needs longer than the scheduler's quiescence to reach its first statement would be
+	// skipped at the first decisions and the same choices would denote another schedule
+	if !warmed {
+		warmed = true
+		ctx := context.Background()
+		if names, err := cur.createLedgers(ctx, []LedgerSpec{{Name: "warm", HashLogs: "SYNC"}}); err == nil {
+			if c, err := cur.sys.GetLedgerController(ctx, names["warm"]); err == nil {
+				_ = perform(ctx, cur, c, names, Req{Kind: "send", Src: "world", Dst: "w", Asset: "USD", Amount: "1"})
+				_ = perform(ctx, cur, c, names, Req{Kind: "send", Src: "w", Dst: "v", Asset: "USD", Amount: "1", IK: "k"})
+				_ = perform(ctx, cur, c, names, Req{Kind: "revert", TxID: 1, Force: true})
+			}
+		}
+	}
 	return cur, nil
 }
 
@@ -560,7 +575,7 @@ func RunCase(in In) (out Out) {
 			ctrls[r.Task] = c
 		}
 	}
-	sch := pgfake.NewScheduler(e.srv, pgfake.SchedOptions{Seed: in.SchedSeed, Choices: in.Choices, Quiescence: 150 * time.Millisecond})
+	sch := pgfake.NewScheduler(e.srv, pgfake.SchedOptions{Seed: in.SchedSeed, Choices: in.Choices, Quiescence: 500 * time.Millisecond})
 	var mu sync.Mutex
 	resps := map[string]Resp{}
 	for _, r := range in.Reqs {
